@@ -135,7 +135,11 @@ var c09Share = core.Mon(c09, "concurrent-share", func(w *core.W, c *RaceCfg) {
 	// hot trees: every goroutine starts with these, in the same order, so that the FIRST use of whatever the
 	// evaluator builds lazily (per type, per pattern, per literal...) overlaps between goroutines
 	hot := []string{"st.A + len(st.S)", "pst.A", "ra.Qty * ra.Price", "rb.Qty * rb.Price", "ra.Note", "st.M.k", "z ?? 0", "b0 ? 100 : n1", "max(n0, 1.50)", "z || 0.0", "(n0, 0)", "2.50",
-		"regexp(s0, '^g[0-9]+')", "round(n0 / 7) + toInt(n1)", "lower(s0) + upper(s1)", "date(2020, 1, 31)", "typeof st", "[1, 2.50, 'x']", "m.k ?? tm.k", "nilp ?? nd ?? 7", "join(strs, ',')", "this.n0", "-n0 + -1", "!b0 || !!z"}
+		"regexp(s0, '^g[0-9]+')", "round(n0 / 7) + toInt(n1)", "lower(s0) + upper(s1)", "date(2020, 1, 31)", "typeof st", "[1, 2.50, 'x']", "m.k ?? tm.k", "nilp ?? nd ?? 7", "join(strs, ',')", "this.n0", "-n0 + -1", "!b0 || !!z",
+		// patterns that differ between goroutines (own pattern from the data) and between trees, evaluated at the same moment
+		"regexp(s0, pat)", "regexp(s0, '^g1-')", "regexp(s0, '^g2-')", "regexp(s0, 'g[0-9]*-abab$')", "[regexp(s0, pat), regexp(s0, '^x'), regexp(s0, pat)]", "regexp('g0-abab', pat) ? 1 : 2",
+		// failures that name what was called: each goroutine gets the error of ITS call
+		"n0(1)", "s0()", "m(2)", "arr()", "fid(arr...)", "fcat('a', arr...)", "abs(arr...)", "b0 ? n1(1) : s1(1)", "fnoret()", "m.k(1)", "left('a')", "right('a', 1, 2)", "fctx()", "undefinedfn(1)", "undefinedname.f(1)"}
 	srcs = append(hot, srcs...)
 	srcs = append(srcs, gen.Corpus...)
 	for len(srcs) < c.Trees {
@@ -171,6 +175,7 @@ var c09Share = core.Mon(c09, "concurrent-share", func(w *core.W, c *RaceCfg) {
 		m, _ := val.Build(StdData(rnd), &val.Env{}).(map[string]interface{})
 		m["n0"] = 1000 + g
 		m["s0"] = fmt.Sprintf("g%d-abab", g)
+		m["pat"] = fmt.Sprintf("^g%d-a", g)
 		datas[g] = m
 		expect[g] = make([]string, len(trees))
 	}
@@ -186,7 +191,8 @@ var c09Share = core.Mon(c09, "concurrent-share", func(w *core.W, c *RaceCfg) {
 			}
 		})
 	}
-	var overlaps, evals, analyses, parses, errParses, nilMapRuns, ctxRuns, deepRuns int64
+	var overlaps, evals, analyses, parses, errParses, nilMapRuns, ctxRuns, deepRuns, stormRuns int64
+	stormFirst := make([]string, c.G)
 	whoTree, werr0 := hostParse([]byte("who(n0) + 1"), true)
 	if werr0 != nil {
 		w.Inconclusive("C09: helper formula does not parse: " + werr0.Error())
@@ -333,6 +339,47 @@ var c09Share = core.Mon(c09, "concurrent-share", func(w *core.W, c *RaceCfg) {
 	}
 	close(start)
 	wg.Wait()
+	// a storm on the builtins that compile, look up or format something per call (patterns, zones, layouts, numbers as
+	// text): every goroutine hammers ONE shared tree with its own arguments; each result must be its own
+	stormSrc := "[regexp(s0, pat), regexp(s0, '^nomatch'), regexp(s0, 'abab$'), regexp(s0, pat), timeFormat(useTimezone(t0, zone), lay), toString(n0), replace(s0, '-', pat), lpad(s0, 'x', 12)]"
+	if stormTree, serr := hostParse([]byte(stormSrc), true); serr == nil {
+		var swg sync.WaitGroup
+		zones := []string{"UTC", "Asia/Shanghai", "America/New_York", "Europe/London", "Asia/Kolkata"}
+		lays := []string{"2006-01-02 15:04", "15:04:05 -0700", "Jan 2 2006 MST", "02/01/06"}
+		stormIters := w.Pick(900, 4000)
+		for g := 0; g < c.G; g++ {
+			swg.Add(1)
+			go func(g int) {
+				defer swg.Done()
+				m := shallowCopy(datas[g])
+				m["zone"], m["lay"] = zones[g%len(zones)], lays[g%len(lays)]
+				m["t0"] = time.Unix(1700000000+int64(g)*86400*37, 0).UTC()
+				want := ""
+				for it := 0; it < stormIters; it++ {
+					got := evalOutcome(stormTree, m)
+					atomic.AddInt64(&stormRuns, 1)
+					if it == 0 {
+						want = got // checked against the sequential oracle below
+						stormFirst[g] = got
+						continue
+					}
+					if got != want {
+						report(mismatch{g, -1, "shared builtin storm", want, got})
+						return
+					}
+				}
+			}(g)
+		}
+		swg.Wait()
+		for g := 0; g < c.G; g++ {
+			m := shallowCopy(datas[g])
+			m["zone"], m["lay"] = zones[g%len(zones)], lays[g%len(lays)]
+			m["t0"] = time.Unix(1700000000+int64(g)*86400*37, 0).UTC()
+			if seq := evalOutcome(stormTree, m); stormFirst[g] != "" && seq != stormFirst[g] {
+				report(mismatch{g, -1, "shared builtin storm", seq, stormFirst[g]})
+			}
+		}
+	}
 	// many evaluations deep inside one tree at the same moment: D nested parentheses around a host call that waits until
 	// all goroutines of the phase have arrived (or a watchdog expires) - nesting is per evaluation, not per process
 	const deepG, deepD = 64, 6000
@@ -394,6 +441,7 @@ var c09Share = core.Mon(c09, "concurrent-share", func(w *core.W, c *RaceCfg) {
 	w.CountN("runners_without_data_map", nilMapRuns)
 	w.CountN("runner_from_context_checks", ctxRuns)
 	w.CountN("deep_evaluations_in_flight_together", deepRuns)
+	w.CountN("builtin_storm_evaluations", stormRuns)
 	w.CountN("yields_injected", int64(yields))
 	w.CountN("shared_trees", int64(len(trees)))
 	w.Count("configs_completed")
